@@ -28,7 +28,7 @@ import asimap.user_server
 from .auth import PWUser
 from .client import CAPABILITIES, ClientState, PreAuthenticated
 from .constants import MAX_INPUT_SIZE
-from .parse import BadCommand, parse_cmd_from_msg
+from .parse import BadCommand, IMAPClientCommand
 from .utils import UpgradeableReadWriteLock, oneline
 
 if TYPE_CHECKING:
@@ -873,14 +873,22 @@ class IMAPSubprocessInterface:
         IMAP client logs out, return `False` so that our calling layers know to
         disconnect the client.
         """
+        # NOTE: The command object is made before it is parsed: if we got as far
+        #       as its tag the BAD we answer with carries it (the client is
+        #       waiting for a response with that tag.)
+        #
+        imap_cmd = IMAPClientCommand(
+            str(msg, "latin-1") if isinstance(msg, bytes) else msg
+        )
         try:
-            imap_cmd = parse_cmd_from_msg(msg)
+            imap_cmd.parse()
         except BadCommand as e:
             # XXX We should track the number of bad commands we get. If it is
             #     over some sort of limit we should slow down our responses and
             #     ultimately disconnect the client.
+            tag = imap_cmd.tag if imap_cmd.tag is not None else "*"
             try:
-                await self.imap_client.push(f"* BAD {oneline(e)}\r\n")
+                await self.imap_client.push(f"{tag} BAD {oneline(e)}\r\n")
                 return True
             except ConnectionError as e:
                 # Do not need a full stack trace for a connection error.
